@@ -117,6 +117,10 @@ pub fn ill_formed(ops: &[Op], idx: usize) -> Option<(&'static str, String)> {
         if bad.is_none() && !name.is_empty() && names.contains(name) {
             bad = Some(("dup-name", name.to_string()));
         }
+        // a system whose `running_time()` panics: the call unwinds with the user's payload and registers nothing
+        if bad.is_none() && matches!(op, Op::Sys(s) if s.time == 9) {
+            bad = Some(("user-panic", "running_time".to_string()));
+        }
         if i == idx {
             return bad;
         }
@@ -145,7 +149,11 @@ fn check_c18_seq(ops: &[Op], path: &mut Vec<usize>, obs: &Obs, out: &mut Vec<Vio
             (Some(c), Some((kind, name))) => match &c.panic {
                 None => out.push(v("C18", "illformed-call-accepted", format!("ill-formed call ({} {:?}) at {:?} did not panic", kind, name, path))),
                 Some(msg) => {
-                    if !msg.contains(&format!("\"{}\"", name)) {
+                    if *kind == "user-panic" {
+                        if !msg.contains("HSYS running_time panics") {
+                            out.push(v("C18", "wellformed-call-panicked", format!("the call at {:?} (whose running_time() panics) unwound with another payload: {}", path, msg)));
+                        }
+                    } else if !msg.contains(&format!("\"{}\"", name)) {
                         out.push(v("C18", "panic-message-lacks-name", format!("panic message of {} at {:?} does not quote {:?}: {}", kind, path, name, msg)));
                     }
                 }
